@@ -5,6 +5,7 @@ import ast
 from typing import List
 
 from ..core import Report
+from ..deps import Deps
 from ..fa import fa_of
 from ..model import ClassInfo, FuncInfo, Program
 from ..rules import names
@@ -186,12 +187,32 @@ def run(prog: Program, rep: Report, tier: str):
                 continue
             fa = fa_of(prog, fi)
             stores = []
+            memo_attrs = set()
+            dep_ = Deps(fa, control=False)
+            per_call = set(fi.params()[1:])
             for n in fa.cfg.nodes:
+                if fa.cfg.nodes[n].kind == "entry":
+                    continue
                 for var, tgt, val in fa.cfg.defs_at(n):
                     if fa.self_name and (var.startswith(fa.self_name + ".")):
+                        # a table computed from the configuration alone and kept for later calls (lazily built look-up table) is no
+                        # per-sample state - provided nobody writes into it (checked below)
+                        if val is not None and isinstance(tgt, ast.Attribute) and not var.endswith("[]") and not any(
+                                lf[0] == "param" and lf[1] in per_call for lf in dep_.of(val, n)) and not _draws_or_loads(val):
+                            memo_attrs.add(var.split(".", 1)[1])
+                            continue
                         stores.append((var, fa.line(n)))
+            if memo_attrs:
+                # in-place writes through a view of such a table
+                for n, call in fa.calls():
+                    f_ = call.func
+                    if isinstance(f_, ast.Attribute) and f_.attr.endswith("_") and not f_.attr.startswith("_"):
+                        hit_ = _may_view_of(fa, f_.value, n, memo_attrs)
+                        if hit_:
+                            stores.append((f"{fa.self_name}.{hit_} (written in place through {ast.unparse(f_.value)}.{f_.attr}: "
+                                           f"the kept table changes with every request that touches this row)", fa.line(n)))
             o = rep.decide(not stores, "G8.pure-getitem", fi.module, f"stores:{name}",
-                           "no store to self.* in the method", f"stores to {', '.join(v for v, _ in stores)}",
+                           "no per-sample store to self.* in the method", f"stores to {', '.join(v for v, _ in stores)}",
                            line=stores[0][1] if stores else fi.node.lineno, clause="C08.3", nontrivial=False)
             o.func = fi.qualname
             seeders = {f.name for f in seeding_methods(prog, C)}
@@ -218,3 +239,46 @@ def run(prog: Program, rep: Report, tier: str):
     rep.floor("transform application sites on seeded paths", n_apps, 10)
     extra = sorted({c.module.relpath for c in wrappers} | set(ANCHOR_FILES))
     names.check(prog, rep, extra, clause="C08.4", floor=20)
+
+
+def _draws_or_loads(e: ast.AST) -> bool:
+    """the expression draws random numbers or reads samples (anything that differs from call to call)"""
+    for y in ast.walk(e):
+        if isinstance(y, ast.Call) and isinstance(y.func, ast.Attribute):
+            if y.func.attr.startswith("getitem_") or y.func.attr in (
+                    "random", "integers", "uniform", "normal", "beta", "permutation", "choice", "shuffle", "rand", "randn", "randint",
+                    "randperm", "default_rng", "get_rng_from_global"):
+                return True
+        if isinstance(y, ast.Call) and isinstance(y.func, ast.Name) and y.func.id in ("get_rng_from_global",):
+            return True
+    return False
+
+
+_VIEW_METHODS = {"view", "reshape", "squeeze", "unsqueeze", "expand", "expand_as", "detach", "t", "T", "transpose", "permute",
+                 "flatten", "narrow", "select", "contiguous", "view_as", "float", "to"}
+
+
+def _may_view_of(fa, e: ast.AST, at: int, attrs, depth: int = 8, _seen=None):
+    """Name of the self attribute (one of ``attrs``) that the expression may be a view / alias of on some path: through plain
+    copies of locals, subscripts, attribute access and view-like tensor methods; a call that builds a new object (clone, copy,
+    arithmetic, constructors) ends the chain."""
+    _seen = set() if _seen is None else _seen
+    if depth <= 0 or e is None:
+        return None
+    if isinstance(e, ast.Attribute) and isinstance(e.value, ast.Name) and e.value.id == fa.self_name:
+        return e.attr if e.attr in attrs else None
+    if isinstance(e, (ast.Subscript, ast.Attribute)):
+        return _may_view_of(fa, e.value, at, attrs, depth - 1, _seen)
+    if isinstance(e, ast.Call) and isinstance(e.func, ast.Attribute) and e.func.attr in _VIEW_METHODS:
+        return _may_view_of(fa, e.func.value, at, attrs, depth - 1, _seen)
+    if isinstance(e, ast.Name):
+        for d in fa.cfg.reaching().get(at, {}).get(e.id, ()):
+            if (e.id, d) in _seen or fa.cfg.nodes[d].kind == "entry":
+                continue
+            _seen.add((e.id, d))
+            v = fa.cfg.def_value(d, e.id)
+            if v is not None:
+                r = _may_view_of(fa, v, d, attrs, depth - 1, _seen)
+                if r:
+                    return r
+    return None
